@@ -221,6 +221,81 @@ void h_sort(void) {
   ASSERT(cv_issued == N && cv_retired == 0, "[C05] sort swaps neither construct nor finalise");
   COVER(N < 2 || in_v[0] > in_v[1], "sort has work to do"); COVER(N < 2 || in_v[0] == in_v[1], "sort with duplicates");
 }
+
+/* ---- C04 sort, modular (lengths beyond what the monolithic h_sort reaches) ----
+ * (P) contract of Array_Sort_Partition on a concrete range [SL, SR]: returns s in the range, everything before s compares
+ *     below the element at s, nothing after it does, the range is a permutation of what it was, the rest is untouched;
+ * (S) Array_Sort_Part on [SL, SR] with the partition cut by (P) and the two recursive calls cut by the contract of
+ *     Array_Sort_Part itself on strictly shorter ranges (well-founded induction on the range length): the range ends up
+ *     ordered and a permutation, the rest untouched. The body is the text of the function extracted from /repo on every run with only the name in its
+ *     definition line changed, so that --replace-calls cuts the inner calls and the harness enters the body. (C) Array_Sort_By calls Array_Sort_Part(a, 0, len-1, f) once. */
+#ifndef SL
+#define SL 0
+#endif
+#ifndef SR
+#define SR (N - 1)
+#endif
+static int64_t gh_sv; static int cv_before_in, cv_before_out;
+static int count_in(int64_t lo, int64_t hi) { int c = 0; for (int j = 0; j < N; j++) if (j >= lo && j <= hi && VAL(j) == gh_sv) c++; return c; }
+static int rest_untouched(int64_t lo, int64_t hi) { for (int j = 0; j < N; j++) if ((j < lo || j > hi) && (VAL(j) != in_v[j] || ET(Array_Item(a, j)) != old_tok[j])) return 0; return 1; }
+/* a symbolic permutation of the elements (values and ledger tokens) in [l, r] */
+static void cv_permute(int64_t l, int64_t r) {
+  struct Elem tmp[N + 1]; int p[N + 1];
+  for (int i = 0; i < N; i++) if (i >= l && i <= r) {
+    p[i] = nondet_int(); __CPROVER_assume(p[i] >= l && p[i] <= r);
+    for (int k = 0; k < i; k++) if (k >= l) __CPROVER_assume(p[k] != p[i]);
+    tmp[i] = *(struct Elem*)Array_Item(a, p[i]);
+  }
+  for (int i = 0; i < N; i++) if (i >= l && i <= r) *(struct Elem*)Array_Item(a, i) = tmp[i];
+}
+static int cv_part_calls, cv_rec_calls, cv_stub_bad;
+size_t cv_partition_stub(struct Array* aa, int64_t l, int64_t r, bool(*f)(var,var)) {      /* (P) */
+  cv_part_calls++;
+  if (!(aa == a && l == SL && r == SR && l < r && f == cv_lt)) { cv_stub_bad++; return l; }
+  cv_permute(l, r);
+  int64_t s = nondet_long(); __CPROVER_assume(s >= l && s <= r);
+  for (int j = 0; j < N; j++) { if (j >= l && j < s) __CPROVER_assume(VAL(j) < VAL(s)); if (j > s && j <= r) __CPROVER_assume(!(VAL(j) < VAL(s))); }
+  return (size_t)s;
+}
+void cv_sort_part_stub(struct Array* aa, int64_t l, int64_t r, bool(*f)(var,var)) {       /* (S) as induction hypothesis */
+  cv_rec_calls++;
+  if (!(aa == a && f == cv_lt && l >= SL && r <= SR && (r - l) < (SR - SL))) { cv_stub_bad++; return; }
+  if (l >= r) return;
+  cv_permute(l, r);
+  for (int j = 0; j + 1 < N; j++) if (j >= l && j + 1 <= r) __CPROVER_assume(!(VAL(j + 1) < VAL(j)));
+}
+void h_sort_partition(void) {
+  arbitrary_array(); gh_sv = nondet_long(); int before = count_in(SL, SR);
+  size_t s = Array_Sort_Partition(a, SL, SR, cv_lt);
+  check_wf(N);
+  ASSERT((int64_t)s >= SL && (int64_t)s <= SR, "[C04] partition returns a position inside the range");
+  for (int j = SL; j <= SR; j++) { if (j < (int64_t)s) ASSERT(VAL(j) < VAL(s), "[C04] everything before the pivot position compares below the pivot"); if (j > (int64_t)s) ASSERT(!(VAL(j) < VAL(s)), "[C04] nothing after the pivot position compares below the pivot"); }
+  ASSERT(count_in(SL, SR) == before && rest_untouched(SL, SR), "[C04] partition permutes the range and touches nothing outside it");
+  ASSERT(cv_issued == N && cv_retired == 0, "[C05] partition swaps neither construct nor finalise");
+  COVER(1, "partition returns");
+}
+#ifdef CV_SORT_BODY
+#include "gen_sort_part.h"      /* Array_Sort_Part_body: the text of Array_Sort_Part extracted from /repo on this run, definition line renamed */
+#endif
+void h_sort_part(void) {
+  arbitrary_array(); gh_sv = nondet_long(); int before = count_in(SL, SR);
+#ifdef CV_SORT_BODY
+  Array_Sort_Part_body(a, SL, SR, cv_lt);
+#endif
+  check_wf(N);
+  ASSERT(cv_stub_bad == 0, "[C04] sort partitions exactly its own range and recurses only into strictly shorter sub-ranges of it (termination, frame)");
+  for (int j = SL; j + 1 <= SR; j++) ASSERT(!(VAL(j + 1) < VAL(j)), "[C04] sort orders the range by the comparison function");
+  ASSERT(count_in(SL, SR) == before && rest_untouched(SL, SR), "[C04] sort leaves a permutation of the range and touches nothing outside it");
+  ASSERT(cv_issued == N && cv_retired == 0, "[C05] sort neither constructs nor finalises");
+  COVER(cv_part_calls == 1 && cv_rec_calls == 2, "partitioned once, recursed twice");
+}
+void cv_sort_part_top(struct Array* aa, int64_t l, int64_t r, bool(*f)(var,var)) { cv_rec_calls++; if (!(aa == a && l == 0 && r == (int64_t)N - 1 && f == cv_lt)) cv_stub_bad++; }
+void h_sort_by(void) {
+  arbitrary_array();
+  Array_Sort_By(a, cv_lt);
+  ASSERT(cv_rec_calls == 1 && cv_stub_bad == 0, "[C04] sort_by sorts the whole sequence: Array_Sort_Part(a, 0, len-1, f), once");
+  COVER(1, "sort_by returns");
+}
 void h_iter(void) {
   arbitrary_array();
   var c = Array_Iter_Init(a); int n = 0;
